@@ -48,3 +48,52 @@ Example C11_example :
   parse_many nat toy [tk ";" 0; tk "<ident>" 1; tk ";" 2; tk ";" 3; tk "<int>" 4; tk ";" 5; tk "<ident>" 6; tk "<eof>" 7] = ([1; 4; 6], 1)
   /\ parse_many nat toy [tk ";" 0; tk "<ident>" 1; tk ";" 2; tk ";" 3; tk "<ident>" 4; tk "<eof>" 7] = ([1; 4], 0).
 Proof. vm_compute. split; reflexivity. Qed.
+
+(* ---- a family of statements for which NOTHING is left to a hypothesis: the sixteen DDL statements of Parse/StmtModel.v (DROP ... , ANALYZE,
+   CREATE SCHEMA / DATABASE), modelled whole with the recover points of parseDDL and parseStatementInternal, tied to ParseDDL, ParseStatement,
+   ParseDDLs and ParseStatements by the correspondence of every run.  Locality -- the one hypothesis of the list-loop theorem -- is PROVED for
+   them (Parse/StmtProofs.v): whatever follows the terminator, the statement parser (accepting or recovering) returns the same node, records the
+   same number of errors and stops at the same place, never beyond the terminator.  Hence, for every list whose pieces are statements of the
+   family -- accepted or rejected, with empty statements anywhere -- and whatever the rest of the parser ([other]) does elsewhere: the list
+   entry point reports no error iff every non-empty piece is accepted alone, and then returns exactly the stand-alone results ---- *)
+From Verif Require Import Parse.StmtModel Parse.StmtProofs.
+
+Theorem C11_ddl_statements_are_local : forall p, p <> [] -> Forall plainT p -> local_opt sp_ddl p.
+Proof. exact sp_ddl_local. Qed.
+Print Assumptions C11_ddl_statements_are_local.
+
+Theorem C11_statements_are_local : forall p, p <> [] -> Forall plainT p -> local_opt sp_stmt p.
+Proof. exact sp_stmt_local. Qed.
+Print Assumptions C11_statements_are_local.
+
+(* ParseDDLs on lists of family statements *)
+Theorem C11_ddl_lists_compose : forall other e, is_eof e = true -> forall segs lastp,
+    Forall (fun ps => Forall plain (fst ps) /\ is_semi (snd ps) = true /\ (fst ps <> [] -> in_family sp_ddl e (fst ps))) segs ->
+    Forall plain lastp -> (lastp <> [] -> in_family sp_ddl e lastp) ->
+    let '(ns, errs) := parse_many dnode (spT other sp_ddl) (flatten segs ++ lastp ++ [e]) in
+    (errs = 0 <-> Forall (ok dnode (spT other sp_ddl) e) (nonempty (pieces segs lastp))) /\
+    (errs = 0 -> ns = map (res dnode (spT other sp_ddl) e) (nonempty (pieces segs lastp))).
+Proof. intros other e E. exact (family_lists_compose other sp_ddl sp_ddl_local e E). Qed.
+Print Assumptions C11_ddl_lists_compose.
+
+(* ParseStatements on lists of family statements *)
+Theorem C11_statement_lists_compose : forall other e, is_eof e = true -> forall segs lastp,
+    Forall (fun ps => Forall plain (fst ps) /\ is_semi (snd ps) = true /\ (fst ps <> [] -> in_family sp_stmt e (fst ps))) segs ->
+    Forall plain lastp -> (lastp <> [] -> in_family sp_stmt e lastp) ->
+    let '(ns, errs) := parse_many dnode (spT other sp_stmt) (flatten segs ++ lastp ++ [e]) in
+    (errs = 0 <-> Forall (ok dnode (spT other sp_stmt) e) (nonempty (pieces segs lastp))) /\
+    (errs = 0 -> ns = map (res dnode (spT other sp_stmt) e) (nonempty (pieces segs lastp))).
+Proof. intros other e E. exact (family_lists_compose other sp_stmt sp_stmt_local e E). Qed.
+Print Assumptions C11_statement_lists_compose.
+
+(* non-vacuity: DROP TABLE t ; ; DROP 1 ; ANALYZE -- three statements, one of them a BadDDL holding its two tokens, one error *)
+Example C11_family_example :
+  let tkz (k : string) (p : Z) (n : Z) := {| pk := bs k; praw := bs k; pstr := []; ppos := p; pend := (p + n)%Z; pbase := 0 |} in
+  let idz (s : string) (p : Z) := {| pk := bs K_ident; praw := bs s; pstr := bs s; ppos := p; pend := (p + Z.of_nat (String.length s))%Z; pbase := 0 |} in
+  let one := {| pk := bs K_int; praw := bs "1"%string; pstr := []; ppos := 21%Z; pend := 22%Z; pbase := 10%Z |} in
+  let ts := [idz "DROP"%string 0; idz "TABLE"%string 5; idz "t"%string 11; tkz ";"%string 12 1; tkz ";"%string 14 1; idz "DROP"%string 16; one; tkz ";"%string 23 1; idz "ANALYZE"%string 25; tkz K_eof 32 0]%Z in
+  parse_many dnode (spT (fun ts => (DNode "?"%string [], ts, 0)) sp_ddl) ts =
+    ([DNode "DropTable"%string [FPos 0; FBool false; FPath [{| id_pos := 11; id_end := 12; id_name := bs "t"%string |}]];
+      DBad false 16 22 [idz "DROP"%string 16%Z; one];
+      DNode "Analyze"%string [FPos 25]]%Z, 1%nat).
+Proof. vm_compute. reflexivity. Qed.
